@@ -275,6 +275,14 @@ def spec_text(spec, witness):
     return bytes(witness.get("b%d" % i, 0x3F) if b is None else b for i, b in enumerate(spec))
 
 
+def example_text(ctx, bs):
+    """one concrete text of the current path (for the samples in the evidence)"""
+    m = ctx.model()
+    if m is None:
+        return None
+    return bytes(m.eval(b.t, model_completion=True).as_long() for b in bs).hex()
+
+
 def stats(out, it):
     for f in it.called:
         out.outcomes.setdefault("fn:" + f, 1)
@@ -485,8 +493,8 @@ def check_lex_result(A, it, lay, ctx, out, bs, r):
     if all(c is not None for c in cs) and cs == sorted(set(cs)) and (not cs or cs[-1] < L):
         token_witnesses(ctx, out, bs, names[:n], cs, errs)
     if len(out.samples) < 2:
-        out.samples.append({"tokens": names, "starts": cs, "errors": [(v, conc_or_none(s), conc_or_none(l)) for v, _, s, l in errs],
-                            "decisions": len(ctx.trace)})
+        out.samples.append({"example_text_hex": example_text(ctx, bs), "tokens": names, "starts": cs,
+                            "errors": [(v, conc_or_none(s), conc_or_none(l)) for v, _, s, l in errs], "decisions": len(ctx.trace)})
 
 
 def whole_body(par, lay, pid, family, label, spec):
@@ -603,7 +611,8 @@ def step_body(par, lay, pid, L, p):
             token_witnesses(ctx, out, bs[:o2], [nm], [p], errs)
         width_witnesses(ctx, out, bs)
         if len(out.samples) < 2:
-            out.samples.append({"state": {"L": L, "cursor": p}, "token": nm, "cursor_after": o2, "errors": [v for v, _, _, _ in errs],
+            out.samples.append({"state": {"L": L, "cursor": p, "brace_stack_depth": getattr(ctx, "_text_memo", {}).get("lazy-shape", "untouched")},
+                                "example_text_hex": example_text(ctx, bs), "token": nm, "cursor_after": o2, "errors": [v for v, _, _, _ in errs],
                                 "decisions": len(ctx.trace)})
         stats(out, it)
         out.outcome("ok")
@@ -704,7 +713,7 @@ def lines_body(par, lay, pid, L):
         A.require("C16", z3.BoolVal(pos == L), "lines-tile", "the lines do not add up to the text")
         out.seen("line-contents-checked")
         if len(out.samples) < 2:
-            out.samples.append({"L": L, "line_starts": [conc_or_none(x) for x in lst], "decisions": len(ctx.trace)})
+            out.samples.append({"L": L, "example_text_hex": example_text(ctx, bs), "line_starts": [conc_or_none(x) for x in lst], "decisions": len(ctx.trace)})
         stats(out, it)
         out.outcome("ok")
     return body
@@ -799,7 +808,8 @@ def parse_body(par, lay, pid, L):
         else:
             out.seen("parse-without-errors")
         if len(out.samples) < 2:
-            out.samples.append({"tree": dump, "errors": [(v, conc_or_none(a), conc_or_none(b)) for v, _, a, b in errs], "decisions": len(ctx.trace)})
+            out.samples.append({"example_text_hex": example_text(ctx, bs), "tree": dump, "errors": [(v, conc_or_none(a), conc_or_none(b)) for v, _, a, b in errs],
+                                "decisions": len(ctx.trace)})
         stats(out, it)
         out.outcome("ok")
     return body
@@ -1374,7 +1384,7 @@ def finish(pid, tier, t0, cfg, reach, results, nat, nval, n_lex_texts, n_line_te
     obligations = discharged = paths = queries = checks = pruned = 0
     stime = 0.0
     fns, models_used = set(), set()
-    vac, samples, per, fam_paths = {}, [], {}, {}
+    vac, samples, per, fam_paths, fam_samples = {}, [], {}, {}, {}
     second = {"asked": 0, "agree": 0, "no_answer": 0}
     hooks = {"Lexer::read_token": "observer around the real function (reports a call that does not move the cursor)",
              "keywords_in_map": "the real function, executed once per interpreter instance, value reused"}
@@ -1399,10 +1409,10 @@ def finish(pid, tier, t0, cfg, reach, results, nat, nval, n_lex_texts, n_line_te
                 second[k[7:]] += x
         for k in out.witness:
             vac[k] = True
-        if out.samples and len(samples) < 12 and (fam not in [s.get("harness", "").split("/")[0] for s in samples] or len(samples) < 6):
-            s = dict(out.samples[0])
-            s["harness"] = name
-            samples.append(s)
+        if out.samples:
+            smp = dict(out.samples[-1])
+            smp["harness"] = name
+            fam_samples.setdefault(fam, []).append(smp)
         per[name] = {"paths": out.paths, "assertion_queries": out.checks, "solver_queries": st["queries"], "pruned_branches": st["pruned"],
                      "solver_time_s": round(st["solver_time"], 2)}
         if out.paths == 0:
@@ -1426,6 +1436,8 @@ def finish(pid, tier, t0, cfg, reach, results, nat, nval, n_lex_texts, n_line_te
         if not bad:
             discharged += len(obl)
         per[name]["violated"] = sorted(set(x["kind"] for x in out.violations))
+    for fam, lst in fam_samples.items():
+        samples += lst[-2:]            # the two longest harnesses of every family
     if unreproduced:
         # a counterexample that the real build does not reproduce is never reported; it makes the run inconclusive unless
         # other counterexamples of this run did reproduce (those are reported, the rest is kept in the evidence)
